@@ -107,7 +107,8 @@ func (ip IPAddress) ConvertToType(typeValue ref.Type) ref.Val {
 func (ip IPAddress) Equal(other ref.Val) ref.Val {
 	otherip, ok := other.(IPAddress)
 	if !ok {
-		return types.NoSuchOverloadErr()
+		// CEL equality is heterogeneous: values of different types are unequal, not an error.
+		return types.False
 	}
 
 	return types.Bool(ip.addr.Compare(otherip.addr) == 0)
